@@ -1,6 +1,7 @@
 #!/usr/bin/env python3
 """confirm sub-agent changes in a scratch worktree and run the registered quick check against them.
-usage: seedeval.py <Cxx> [<Cxx> ...]   (reads /tmp/seed/out_<Cxx>/change*/)"""
+usage: [SEED_ROOT=/tmp/seed] seedeval.py <Cxx> [<Cxx> ...]   (reads $SEED_ROOT/out_<Cxx>/change*/; one scratch worktree
+$SEED_ROOT/eval_<first Cxx> per invocation, so that several invocations can run side by side)"""
 import json, os, shutil, subprocess, sys, time
 VERIF = os.path.dirname(os.path.dirname(os.path.abspath(__file__)))
 SUITE = "/venv/bin/python -m pytest -q -p no:cacheprovider --timeout=900 --continue-on-collection-errors"
@@ -12,13 +13,14 @@ def sh(cmd, cwd=None, env=None, timeout=3600):
 
 
 def main():
-    evalwt = '/tmp/seed/eval'
+    root = os.environ.get('SEED_ROOT', '/tmp/seed')
+    evalwt = f'{root}/eval_{sys.argv[1]}'
     if not os.path.isdir(evalwt):
         sh(f'git -C /repo worktree add -f {evalwt} HEAD')
     sh('git checkout -q --detach && git reset -q --hard $(git -C /repo rev-parse HEAD)', cwd=evalwt)
     results = []
     for pid in sys.argv[1:]:
-        base = f'/tmp/seed/out_{pid}'
+        base = f'{root}/out_{pid}'
         for ch in sorted(d for d in os.listdir(base) if d.startswith('change')):
             d = os.path.join(base, ch)
             patch = os.path.join(d, 'patch.diff')
@@ -49,7 +51,7 @@ def main():
             sh('git checkout -q -- . && git clean -fdq', cwd=evalwt)
             results.append(rec)
             print(json.dumps(rec), flush=True)
-    json.dump(results, open(f'/tmp/seed/eval_results_{"_".join(sys.argv[1:])}.json', 'w'), indent=1)
+    json.dump(results, open(f'{root}/eval_results_{"_".join(sys.argv[1:])}.json', 'w'), indent=1)
 
 
 main()
